@@ -210,19 +210,12 @@ impl InputList {
         Ok(Self { events })
     }
 
-    /// Convert to output events whose text is exempt from the writer's white space tidying.
-    pub fn into_verbatim_output(self) -> OutputList {
+    /// Convert to output events which are written exactly as they were read.
+    pub fn into_raw_output(self) -> OutputList {
         let events: Vec<OutputEvent> = self
             .events
             .into_iter()
-            .map(|ev| match ev.event {
-                Event::Text(ref t) => {
-                    // (re-)escaped just as the writer does for other text
-                    let text = BytesText::new(&unescape_text(t)).into_owned();
-                    OutputEvent::Other(Event::Text(text))
-                }
-                _ => ev.into(),
-            })
+            .map(|ev| OutputEvent::Other(ev.event))
             .collect();
         events.into()
     }
